@@ -319,8 +319,10 @@ func blockOnListChangeWorker(
 		ctx.l.Tracef("waiting for %s to get a list item until %s", keyNameStr(), end.Format(time.StampMilli))
 	}
 
+	verifPoint("block.beforeregister", ctx.cs.id)
 	ws := blockFn()
 	defer ctx.dsc.ds.leaveListBlock(ws)
+	verifPoint("block.afterregister", ctx.cs.id)
 
 	// with notification registered, try operation again immediately
 	output = op()
@@ -336,8 +338,10 @@ func blockOnListChangeWorker(
 			waitTimer := time.NewTimer(timeout)
 			defer waitTimer.Stop()
 
+			verifPoint("block.beforecapture", ctx.cs.id)
 			unblockCh := ctx.cs.capture()
 			defer ctx.cs.releaseCapture()
+			verifPoint("block.beforewait", ctx.cs.id)
 
 			select {
 			case reason := <-unblockCh:
@@ -361,11 +365,13 @@ func blockOnListChangeWorker(
 		}
 
 		// list element probably exists and the operation will succeed
+		verifPoint("block.afterwake", ctx.cs.id)
 		output = op()
 		if output.data != nil {
 			return
 		}
 		// a different client obtained the list element before this client could, so try again
+		verifPoint("block.afterfailedretry", ctx.cs.id)
 	}
 }
 
